@@ -56,14 +56,20 @@ func VH_C17_DataDescWidth() {
 	src := &vhAt{base: 30 + int64(csize), data: append(append([]byte{}, desc...), next...)}
 	f := &File{CompressedSize: csize, UncompressedSize: usize, Offset: 0, r: src, rs: 1 << 50}
 	f.lfh = zipLocalHeader{Signature: fileHeaderSignature, Flags: 0x8}
+	// contiguous archive: the directory tells where the next record starts
+	contig := vhBool("next-record-position-known")
+	if contig {
+		f.next = 30 + int64(csize) + int64(len(desc))
+	}
 	err := f.readDataDesc()
 	vhAssert(err == nil, "valid-descriptor-accepted")
 	if err != nil {
 		return
 	}
-	if wide && uint32(usize) == 0 && csize < uint32Max && usize < uint32Max {
+	if wide && usize == 0 && csize < uint32Max && !contig {
 		// 24-byte descriptor whose 8-byte compressed size reads as
-		// (csize32, usize32=0): both widths are self-consistent
+		// (csize32, usize32=0): both widths are self-consistent, and with a
+		// gap after the member nothing else tells them apart
 		vhAssert(len(f.ddb) == len(desc), "descriptor-width-recognised/24-byte-with-zero-usize")
 	} else {
 		vhAssert(len(f.ddb) == len(desc), "descriptor-width-recognised")
